@@ -1353,6 +1353,17 @@ ADVANCE_TO_APP_DATA:
             goto encodeResponse;
         }
 
+        /* A handshake has one ChangeCipherSpec and Finished follows it.
+           hsState stays SSL_HS_FINISHED between the two, so the record
+           decoded last tells whether this one was consumed already: a second
+           one would activate the read cipher (and sequence number) again */
+        if (ssl->hsState == SSL_HS_FINISHED && ssl->decState == SSL_HS_CCC)
+        {
+            ssl->err = SSL_ALERT_UNEXPECTED_MESSAGE;
+            psTraceErrr("Repeated ChangeCipherSpec\n");
+            goto encodeResponse;
+        }
+
 #ifdef USE_DTLS
         if (ACTV_VER(ssl, v_dtls_any))
         {
